@@ -708,6 +708,7 @@ func R5(pkgs ...string) func(p *core.Prog) *core.Result {
 		if in["ubjson"] {
 			ubjsonMarkerTables(p, r)
 			scanExit(p, r)
+			charRange(p, r, sizes)
 		}
 		if in["json"] {
 			numberKind(p, r)
